@@ -526,6 +526,96 @@ def small_regime_variant(tree):
     raise TranslateError('%s: _lincomb_impl small-size branch not found' % NPY_TENSORS_PY)
 
 
+def _shape(node):
+    """ast.unparse with every string constant blanked (messages are not part of the protocol)."""
+    class Blank(ast.NodeTransformer):
+        def visit_Constant(self, n):
+            return ast.copy_location(ast.Constant(value=''), n) if isinstance(n.value, str) else n
+
+        def visit_JoinedStr(self, n):
+            return ast.copy_location(ast.Constant(value=''), n)
+    import copy
+    return ast.unparse(Blank().visit(copy.deepcopy(node)))
+
+
+STEP_SHAPES = {
+    "if x not in self.domain:\n    try:\n        x = self.domain.element(x)\n    except (TypeError, ValueError):\n"
+    "        raise OpDomainError(''.format(x, self.domain))": 'StCastX',
+    "if out not in self.range:\n    raise OpRangeError(''.format(out, self.range, self))": 'StCheckOut',
+    "if self.is_functional:\n    raise TypeError('')": 'StNoOutForFunctional',
+    "result = self._call_in_place(x, out=out, **kwargs)": 'StCallIp',
+    "if result is not None and result is not out:\n    raise ValueError('')": 'StCheckReturn',
+    "out = self._call_out_of_place(x, **kwargs)": 'StCallOop',
+    "if out not in self.range:\n    try:\n        out = self.range.element(out)\n    except (TypeError, ValueError):\n"
+    "        raise OpRangeError(''.format(out, self.range))": 'StCastResult',
+    "return out": 'StReturnOut',
+    "out = op.range.element()": 'StNewOut',
+    "result = op._call_in_place(x, out, **kwargs)": 'StCallIp',
+    "out.assign(op.range.element(op._call_out_of_place(x, **kwargs)))": 'StAssignCastOop',
+}
+
+
+def _steps(stmts, src):
+    out = []
+    for st in stmts:
+        sh = _shape(st)
+        if sh not in STEP_SHAPES:
+            raise TranslateError('%s:%d: statement of the call protocol outside the grammar: %s'
+                                 % (src, st.lineno, sh[:200]))
+        out.append(STEP_SHAPES[sh])
+    return out
+
+
+def protocol(tree):
+    """Operator.__call__ (both branches), the two default bridges and the slot table of Operator.__new__."""
+    src = OPERATOR_PY
+    funs = {n.name: n for n in tree.body if isinstance(n, ast.FunctionDef)}
+    opcls = [n for n in tree.body if isinstance(n, ast.ClassDef) and n.name == 'Operator'][0]
+    meths = {n.name: n for n in opcls.body if isinstance(n, ast.FunctionDef)}
+    call = strip_doc(meths['__call__'])
+    if not (len(call) == 3 and isinstance(call[1], ast.If) and ast.unparse(call[1].test) == 'out is not None'):
+        raise TranslateError('%s: Operator.__call__ does not have the shape  cast x; if out is not None: .. else: ..; return'
+                             % src)
+    first, last = _steps([call[0]], src), _steps([call[2]], src)
+    plan_ip = first + _steps(call[1].body, src) + last
+    plan_oop = first + _steps(call[1].orelse, src) + last
+    d_oop = _steps(strip_doc(funs['_default_call_out_of_place']), src)
+    d_ip = _steps(strip_doc(funs['_default_call_in_place']), src)
+    # Operator.__new__
+    new = strip_doc(meths['__new__'])
+    if not (len(new) == 2 and isinstance(new[0], ast.If)
+            and ast.unparse(new[0].test) == "'_call_out_of_place' not in cls.__dict__"
+            and ast.unparse(new[1]) == 'return object.__new__(cls)'):
+        raise TranslateError('%s: Operator.__new__ outside the grammar' % src)
+    body = new[0].body
+    pre = [ast.unparse(b) for b in body[:3]]
+    if pre != ['call_has_out, call_out_optional, _ = _dispatch_call_args(cls)', 'cls._call_has_out = call_has_out',
+               'cls._call_out_optional = call_out_optional'] or len(body) != 4 or not isinstance(body[3], ast.If):
+        raise TranslateError('%s: Operator.__new__ preamble outside the grammar' % src)
+
+    def slots_of(stmts):
+        m = {}
+        for st in stmts:
+            if not isinstance(st, ast.Assign):
+                raise TranslateError('%s:%d: Operator.__new__ branch outside the grammar' % (src, st.lineno))
+            val = ast.unparse(st.value)
+            sl = {'cls._call': 'SlCall', '_default_call_in_place': 'SlDefaultIp',
+                  '_default_call_out_of_place': 'SlDefaultOop'}.get(val)
+            if sl is None:
+                raise TranslateError('%s:%d: unknown slot value %s' % (src, st.lineno, val))
+            for tg in st.targets:
+                m[ast.unparse(tg)] = sl
+        if set(m) != {'cls._call_in_place', 'cls._call_out_of_place'}:
+            raise TranslateError('%s: Operator.__new__ branch does not set both slots' % src)
+        return m['cls._call_in_place'], m['cls._call_out_of_place']
+    br = body[3]
+    if not (ast.unparse(br.test) == 'not call_has_out' and len(br.orelse) == 1 and isinstance(br.orelse[0], ast.If)
+            and ast.unparse(br.orelse[0].test) == 'call_out_optional'):
+        raise TranslateError('%s: Operator.__new__ case distinction outside the grammar' % src)
+    table = {'KOop': slots_of(br.body), 'KBoth': slots_of(br.orelse[0].body), 'KIp': slots_of(br.orelse[0].orelse)}
+    return plan_ip, plan_oop, d_oop, d_ip, table
+
+
 def all_kinds(repo=None):
     """(class name, dispatch kind) for every class of the anchored files that defines `_call`."""
     repo = repo or REPO
@@ -554,6 +644,15 @@ def translate(repo=None):
     out.append('Definition threshold_medium : Z := %d%%Z.' % module_int(t, 'THRESHOLD_MEDIUM', NPY_TENSORS_PY))
     out.append('(* which form the small-size branch of _lincomb_impl has *)')
     out.append('Definition small_guarded : small_variant := %s.' % small_regime_variant(t))
+    out.append('')
+    plan_ip, plan_oop, d_oop, d_ip, table = protocol(ast.parse(open(os.path.join(repo, OPERATOR_PY)).read()))
+    out.append('(* Operator.__call__ with / without out, the two default bridges, Operator.__new__ *)')
+    out.append('Definition call_plan_ip : list step := [%s].' % '; '.join(plan_ip))
+    out.append('Definition call_plan_oop : list step := [%s].' % '; '.join(plan_oop))
+    out.append('Definition default_oop_plan : list step := [%s].' % '; '.join(d_oop))
+    out.append('Definition default_ip_plan : list step := [%s].' % '; '.join(d_ip))
+    out.append('Definition new_slots (k : kind) : slot * slot :=\n  match k with %s end.'
+               % ' | '.join('%s => (%s, %s)' % (k, table[k][0], table[k][1]) for k in ('KOop', 'KBoth', 'KIp')))
     out.append('')
     names = []
     for coqname, src, clsname, cfg in CLASSES:
